@@ -65,6 +65,15 @@ fn main() {
     lean.push_str("set_option linter.unusedVariables false\n-- an arm the Rust compiler accepts although earlier arms cover it is not an error here either\nset_option match.ignoreUnusedAlts true\n\n");
 
     let mut entries: Vec<BTreeMap<String, Json>> = Vec::new();
+    // what concerns every function: imports and names the translation takes as given
+    if krate.global_problems.is_empty() {
+        lean.push_str("/-- no import is renamed or redirected, no item of the crate is named like a std / winnow item the translation gives a fixed meaning -/\ntheorem Semver.Gen.names_as_expected : True := trivial\n\n");
+    } else {
+        for g in &krate.global_problems {
+            lean.push_str(&format!("-- UNTRANSLATABLE Semver.Gen.names_as_expected : {}\n", g));
+        }
+        lean.push('\n');
+    }
     // shape checks of the data types first
     lean.push_str(&krate.shape_checks());
 
@@ -103,6 +112,7 @@ fn main() {
     root.insert("new_functions".into(), Json::A(new_fns.into_iter().map(Json::S).collect()));
     root.insert("extra_source_files".into(), Json::A(extra_files.into_iter().map(Json::S).collect()));
     root.insert("parse_errors".into(), Json::A(parse_errors.into_iter().map(Json::S).collect()));
+    root.insert("global_problems".into(), Json::A(krate.global_problems.iter().map(|s| Json::S(s.clone())).collect()));
     root.insert("macro_notes".into(), Json::A(krate.macro_notes.iter().map(|s| Json::S(s.clone())).collect()));
     root.insert("macro_rules".into(), Json::A(krate.macros.iter().map(|(n, h)| {
         let mut m = BTreeMap::new();
